@@ -399,8 +399,8 @@ class Branch(SequenceSet[Node], EventEmitter, abcs.Copyable, metaclass=BranchMet
         if isinstance(node, SentenceNode):
             s: Sentence = node[Node.Key.sentence]
             if len(cons := s.constants):
-                if self._nextconst in cons:
-                    self._nextconst = max(cons).next()
+                if (maxcon := max(cons)) >= self._nextconst:
+                    self._nextconst = maxcon.next()
                 self._constants.update(cons)
 
         if isinstance(node, Modal):
